@@ -7,6 +7,7 @@
                      any field of ParsedPacket ("nor alters a single byte of it")
   C03.d opt-skip     ResponseIterator::next = next_including_opt followed by the OPT skip, and the skip
                      advances only on the branch where the record type read equals Type::OPT
+  C03.e budget       (E4) a trusted reader that limits the pointers it follows allows at least the validator's 16
   C03.c layout       (see rules/layout.py) the readers' field tuples equal the RFC table, the validator's and the builder's
 
 Not decided here: that the walk visits exactly the records present for every accepted packet, name
@@ -124,6 +125,7 @@ def run(ctx):
         readonly_rule(ctx, facts, cfg)
         opt_skip(ctx, facts, cfg)
         layout.check_readers(ctx, facts, cfg, 'C03.c')
+        pointer_budget_rule(ctx, facts, cfg)
     ctx.assume('cursor invariants of accepted packets (offset <= offset_next <= len) are run-time facts and are not decided here')
 
 
@@ -204,6 +206,60 @@ def readonly_rule(ctx, facts, cfg):
                 if kind == 'ext' and d in ('parsed_packet::ParsedPacket::packet_mut',):
                     ctx.violation('C03.b', k, 'packet_mut', 'read accessor reaches packet_mut()', site=site, config=cfg)
         ctx.sample({'rule': 'C03.b', 'entries': len(set(entries)), 'reachable': len(seen), 'mutable_accesses': len(hits)})
+
+
+def pointer_budget_rule(ctx, facts, cfg):
+    """C03.e: a trusted reader that gives up after a number of compression pointers must allow at least as many pointer
+    follows as the validator admits (DNS_MAX_HOSTNAME_INDIRECTIONS): otherwise an accepted name is silently truncated."""
+    from analysis.e4 import E4
+    from analysis.interp import Int
+    rid = 'C03.e'
+    budget = facts.const_val('constants::DNS_MAX_HOSTNAME_INDIRECTIONS')
+    if budget is None:
+        ctx.missing(rid, 'constants::DNS_MAX_HOSTNAME_INDIRECTIONS')
+        return
+    n = 0
+    for key, f in sorted(facts.fns.items()):
+        if f['kind'] == 'Closure' or '@' in key or key.endswith('Compress::check_compressed_name') or not key.startswith('compress::'):
+            continue
+        defs = F.single_defs(f)
+        counters = set()
+        for bi, b in F.blocks(f):
+            t = b['term']
+            if t['k'] == 'switch':
+                e = F.expr(f, defs, t['discr'])
+                if e[0] == 'binop' and e[1] in ('Gt', 'Ge', 'Lt', 'Le') and e[3] == ('const', budget) and e[2][0] == 'local':
+                    counters.add(e[2][1])
+        if not counters:
+            continue
+        n += 1
+        e4 = E4(facts, keep_instates=True)
+        try:
+            e4.summarize(key)
+        except Exception as ex:  # noqa
+            ctx.violation(rid, key, 'undecided', 'cannot analyse %s: %s' % (key, ex), kind='undecided', config=cfg)
+            continue
+        if e4.unmodelled():
+            ctx.violation(rid, key, 'unmodelled', 'unmodelled construct in %s: %s' % (key, list(e4.unmodelled())[:2]), kind='undecided', config=cfg)
+            continue
+        fr, instate, heads, succ, ff = e4.an.last_instate[key]
+        for c in sorted(counters):
+            his = []
+            for (bb, pk), st in instate.items():
+                if bb in heads:
+                    v = st.mem.get('%s._%d' % (fr, c))
+                    if isinstance(v, Int):
+                        his.append(st.C.bounds(v.e)[1])
+            if not his:
+                continue
+            top = None if any(h is None for h in his) else max(his)
+            ok = top is None or top >= budget
+            ctx.instance(rid, '%s: pointer counter reaches %s at the loop head (validator admits %d pointers per name)' % (key.split('::')[-1], top, budget), ok=ok, site=f['at'])
+            if not ok:
+                ctx.violation(rid, key, 'pointer-budget', '%s stops following compression pointers after %s of them, but the validator accepts names with up to %d: such a name is returned truncated'
+                              % (key.split('::')[-1], top, budget), site=f['at'], config=cfg)
+    if n < 1:
+        ctx.violation(rid, '<floor>', 'readers with a pointer budget', 'no trusted reader with a pointer budget found (expected raw_name_to_str)', kind='below-floor')
 
 
 def opt_skip(ctx, facts, cfg):
